@@ -6,6 +6,7 @@ package main
 
 import (
 	"fmt"
+	"os"
 	"go/constant"
 	"go/token"
 	"go/types"
@@ -15,6 +16,8 @@ import (
 
 	"golang.org/x/tools/go/ssa"
 )
+
+var traceOn = os.Getenv("GVC_TRACE") != ""
 
 type closure struct {
 	fn       *ssa.Function
@@ -88,6 +91,14 @@ type Engine struct {
 	inputLow    *Term
 	usedModels  map[string]bool
 	debug       bool
+	pureSeen    map[int]bool
+	pureDepth   int
+	invokeDepth int
+	invokeTrace []string
+	tmplFuncs   map[int]*Term
+	byteRefs    map[int]bool
+	tmplPrecise func(c *CallCtx, text, data *Term) *Term
+	allocParent map[int]*Term // fresh allocation-counter symbol -> the counter it is >= to
 }
 
 type modLoc struct {
@@ -103,10 +114,15 @@ func newEngine(prog *ssa.Program, fset *token.FileSet) *Engine {
 		loadedFacts: map[int]bool{}, notes: map[string]int{}, funcIDs: map[*ssa.Function]int{},
 		models: map[string]ModelFn{}, contracts: map[string]*Contract{}, inlineFns: map[string]bool{},
 		globalIDs: map[*ssa.Global]int{}, funcsByName: map[string]*ssa.Function{}, oblIDs: map[string]int{},
-		unmodelled: map[string]int{}, maxUnroll: 40, axiomSeen: map[int]bool{}, replacers: map[int][]*Term{}, lists: map[int][]*Term{}, usedModels: map[string]bool{}, ordinals: map[*ssa.Function]map[ssa.Instruction]int{},
+		unmodelled: map[string]int{}, maxUnroll: 300, axiomSeen: map[int]bool{}, replacers: map[int][]*Term{}, lists: map[int][]*Term{}, usedModels: map[string]bool{}, ordinals: map[*ssa.Function]map[ssa.Instruction]int{},
 	}
 	e.declComp(allocComp, IntS)
+	e.tmplFuncs = map[int]*Term{}
+	e.byteRefs = map[int]bool{}
 	registerModels(e)
+	for _, f := range extraModels {
+		f(e)
+	}
 	return e
 }
 
@@ -124,6 +140,28 @@ func (e *Engine) assume(pc, t *Term) { e.assumeGlobal(Implies(pc, t)) }
 // axiom adds a permanent, path-independent fact (never rolled back).
 func (e *Engine) axiom(t *Term) {
 	if t.IsTrue() || e.axiomSeen[t.id] {
+		return
+	}
+	if t.hasBound {
+		// a fact about a term under a quantifier: close it universally
+		seen := map[int]bool{}
+		var bvs []*Term
+		var walk func(x *Term)
+		walk = func(x *Term) {
+			if seen[x.id] || !x.hasBound {
+				return
+			}
+			seen[x.id] = true
+			if x.Op == "bvar" {
+				bvs = append(bvs, x)
+			}
+			for _, a := range x.Args {
+				walk(a)
+			}
+		}
+		walk(t)
+		e.axiomSeen[t.id] = true
+		e.axioms = append(e.axioms, Forall(bvs, t))
 		return
 	}
 	e.axiomSeen[t.id] = true
@@ -262,6 +300,9 @@ func (e *Engine) execFunction(fn *ssa.Function, args []*Term, bindings []*Term, 
 	}
 	e.depth++
 	defer func() { e.depth-- }()
+	if traceOn {
+		fmt.Fprintf(os.Stderr, "%*senter %s\n", e.depth, "", fn.String())
+	}
 	fr := &Frame{fn: fn, caller: caller, path: path, oldSt: oldSt, allOld: allOld}
 	if caller != nil {
 		fr.clause = caller.clause
@@ -447,6 +488,7 @@ func (e *Engine) runLoop(fr *Frame, li *loopInfo, edgesIn []edge) map[*ssa.Basic
 	if invs == nil {
 		cur := edgesIn
 		savedIter := fr.iter
+		symbolicIters := 0
 		for it := 0; it < e.maxUnroll; it++ {
 			fr.iter = fmt.Sprintf("%s~%d", savedIter, it)
 			exits, backs := e.runRegion(fr, li.rpo, map[*ssa.BasicBlock][]edge{li.header: cur}, li.header)
@@ -461,9 +503,23 @@ func (e *Engine) runLoop(fr *Frame, li *loopInfo, edgesIn []edge) map[*ssa.Basic
 				fr.iter = savedIter
 				return exitsAcc
 			}
+			liveExit := false
+			for _, es := range exits {
+				for _, x := range es {
+					if !x.pc.IsFalse() && (x.from == li.header || it >= 16) {
+						liveExit = true
+					}
+				}
+			}
+			if liveExit {
+				symbolicIters++
+				if symbolicIters > 2 {
+					break
+				}
+			}
 			cur = live
 		}
-		panic(outsideSubset(fmt.Sprintf("loop %d of %s needs an invariant (not unrollable)", li.ordinal, shortFn(fr.fn))))
+		panic(outsideSubset(fmt.Sprintf("loop %d of %s needs an invariant (not unrollable; %d symbolic iterations)", li.ordinal, shortFn(fr.fn), symbolicIters)))
 	}
 	// cut-point
 	var pcs []*Term
@@ -583,6 +639,7 @@ func (e *Engine) havocFor(fr *Frame, stIn *State, phis []*ssa.Phi, dirty map[str
 	if dirty[allocComp] {
 		f := Fresh("hv:"+allocComp, IntS)
 		e.axiom(Ge(f, e.comp(stIn, allocComp)))
+		e.noteAllocGe(f, e.comp(stIn, allocComp))
 		stH.comps[allocComp] = f
 	}
 	for _, k := range ks {
@@ -605,7 +662,9 @@ func (e *Engine) wellFormedValue(t types.Type, v *Term, bound *Term) {
 	case LocS:
 		e.axiom(Lt(LocObj(v), bound))
 		e.axiom(Ge(LocObj(v), IntT(0)))
+		NoteUpperBound(LocObj(v), bound)
 	case SliceS:
+		NoteUpperBound(LocObj(SliceBase(v)), bound)
 		e.axiom(Lt(LocObj(SliceBase(v)), bound))
 		e.axiom(Ge(LocObj(SliceBase(v)), IntT(0)))
 		e.axiom(Ge(SliceLen(v), IntT(0)))
@@ -786,6 +845,15 @@ func (e *Engine) execInstr(fr *Frame, ins ssa.Instruction, st *State, pc *Term) 
 			st.vals[in] = ElemLoc(x, i)
 		case *types.Slice:
 			_ = xt
+			if x.Sort == StringS {
+				// address of a byte of an (immutable) byte string: a read-only cell
+				l := e.allocLoc(st)
+				bt := types.Typ[types.Uint8]
+				e.storeAt(st, bt, l, compCell(bt), StrToCode(StrAt(x, i)))
+				e.byteRefs[l.id] = true
+				st.vals[in] = l
+				break
+			}
 			st.vals[in] = ElemLoc(SliceBase(x), Add(SliceOff(x), i))
 		default:
 			panic("IndexAddr on " + in.X.Type().String())
@@ -826,6 +894,9 @@ func (e *Engine) execInstr(fr *Frame, ins ssa.Instruction, st *State, pc *Term) 
 	case *ssa.Store:
 		addr := e.value(fr, st, in.Addr)
 		v := e.value(fr, st, in.Val)
+		if e.byteRefs[addr.id] {
+			panic(outsideSubset("store into a byte slice (byte slices are modelled as immutable strings)"))
+		}
 		e.frameCheck(fr, in, st, pc, addr, in.Val.Type())
 		e.storePtr(st, in.Val.Type(), addr, v, pc)
 	case *ssa.Convert:
@@ -1417,7 +1488,7 @@ func (e *Engine) frameCheckObj(fr *Frame, ins ssa.Instruction, st *State, pc *Te
 	if !e.frameOn || fr.clause || e.quiet > 0 {
 		return
 	}
-	goal := Ge(obj, e.alloc0)
+	goal := e.allocGe(obj)
 	for _, m := range e.modLocs {
 		if m.obj != nil {
 			goal = Or(goal, Eq(obj, m.obj))
@@ -1429,13 +1500,38 @@ func (e *Engine) frameCheckObj(fr *Frame, ins ssa.Instruction, st *State, pc *Te
 	e.addObl(fr, "frame", fmt.Sprintf("%s#%d", what, e.ordinal(fr.fn, ins)), e.frameProps, pc, goal, e.posOf(fr, ins))
 }
 
+func (e *Engine) noteAllocGe(f, prev *Term) {
+	if e.allocParent == nil {
+		e.allocParent = map[int]*Term{}
+	}
+	b, k := linForm(prev)
+	if b != nil && k.Sign() >= 0 {
+		e.allocParent[f.id] = b
+	}
+	NoteLowerBound(f, prev)
+}
+
 // inFrame: the written location is fresh since entry of the verified function
 // or listed in its modifies clause.
+// allocGe: obj >= alloc0, decided syntactically where the object id is an
+// offset of an allocation counter known to be at least alloc0.
+func (e *Engine) allocGe(obj *Term) *Term {
+	b, k := linForm(obj)
+	if b != nil && k.Sign() >= 0 {
+		for x := b; x != nil; x = e.allocParent[x.id] {
+			if x == e.alloc0 {
+				return True
+			}
+		}
+	}
+	return Ge(obj, e.alloc0)
+}
+
 func (e *Engine) inFrame(addr *Term) *Term {
 	if addr.Op == "ite" {
 		return Ite(addr.Args[0], e.inFrame(addr.Args[1]), e.inFrame(addr.Args[2]))
 	}
-	goal := Ge(LocObj(addr), e.alloc0)
+	goal := e.allocGe(LocObj(addr))
 	for _, m := range e.modLocs {
 		if m.loc != nil {
 			goal = Or(goal, Eq(addr, m.loc), e.isUnder(addr, m.loc))
